@@ -173,6 +173,16 @@ def evthread_jobs(tier):
                       defines=["-DOP=%d" % op, "-DMAXITER=%d" % (1 if tier == "quick" else 2)],
                       real=[], support=["vp_rt.c"], unwind=6, backend="cadical", mem_gb=6,
                       timeout=240, native=False, witnesses=wit[op],
+                      # the harness fixes every callback of the event back end; without the restriction CBMC's
+                      # function-pointer removal lets free_data_cb target ares_event_destroy_cb itself (unbounded recursion)
+                      instrument=[sum([["--restrict-function-pointer", x] for x in (
+                          "ares_event_destroy_cb.function_pointer_call.1/sys_del",
+                          "ares_event_destroy_cb.function_pointer_call.2/ares_free",
+                          "ares_event_signal.function_pointer_call.1/sig_cb",
+                          "ares_event_process_updates.function_pointer_call.1/sys_add",
+                          "ares_event_process_updates.function_pointer_call.2/sys_mod",
+                          "ares_event_thread_cleanup.function_pointer_call.1/sys_destroy",
+                          "ares_event_thread.function_pointer_call.1/sys_wait")], [])],
                       unwindset=["ares_event_thread.0:4", "ares_event_process_updates.0:6", "ares_event_update_find.0:6"],
                       bound=["one (thorough: two) iteration(s) of the real ares_event_thread() loop + cleanup; socket 5 unregistered or "
                              "registered; each call into the channel may trigger the socket-state and pending-write callbacks "
